@@ -224,6 +224,9 @@ func shards() int { return envInt("VERIF_SHARDS", 1) }
 func TestMain(m *testing.M) {
 	loadKnownFindings()
 	code := m.Run()
+	if pinnedFailed && code == 0 {
+		code = 1
+	}
 	ev.Flush(code != 0)
 	os.Exit(code)
 }
